@@ -1,6 +1,7 @@
 package main
 
 import (
+	"os"
 	"sort"
 	"fmt"
 	"go/token"
@@ -457,6 +458,13 @@ func (c *Ctx) checkConnectWatcher(r *Report) {
 					if ret == "nil" || ret == "global:Shutdown" {
 						okRet, detail = false, fmt.Sprintf("transaction failed with %s but the watcher returns %s: the session is not ended", ev, ret)
 					}
+					// the result of a repository function (a send, a helper) may be nil: the session would go on
+					if strings.HasPrefix(ret, "result:") && strings.Contains(ret, modPath) || strings.HasPrefix(ret, "result:(*gateway.") || strings.HasPrefix(ret, "result:gateway.") {
+						okRet, detail = false, fmt.Sprintf("transaction failed with %s but the watcher returns %s, which is nil when that call succeeds: the session is not ended and the half-open exchange is never reaped", ev, ret)
+					}
+					if os.Getenv("BISQ_DEBUG") != "" {
+						fmt.Println("C10-R2 watcher", ev, "=>", ret)
+					}
 				}
 			}
 			if len(outs) == 0 {
@@ -638,6 +646,57 @@ func checkC13(c *Ctx, r *Report) {
 	if err != nil {
 		r.undecided("R4", "gateway-model", "-", err.Error())
 	} else {
+		// "... and did not disconnect itself": the state the shutdown goroutine reads says Disconnected only because
+		// the client sent a plain DISCONNECT. Every place the session state is set to the constant Disconnected is
+		// in the MQTT-SN dispatcher under Duration == 0 of the decoded DISCONNECT (a receive loop that marks the
+		// client disconnected on a read or decode error makes the goroutine skip the DISCONNECT an active client is owed)
+		nSet := 0
+		for _, f := range c.repoFuncs("gateway") {
+			allInstrs(f, func(i ssa.Instruction) {
+				ci, ok := i.(ssa.CallInstruction)
+				if !ok {
+					return
+				}
+				g := staticCallee(ci.Common())
+				if g == nil || len(ci.Common().Args) < 2 {
+					return
+				}
+				isSetter := calleeName(ci.Common()) == "(*"+pkUtil+".ClientState).Set"
+				if !isSetter && fnPkgPath(g) == pkGateway {
+					allInstrs(g, func(j ssa.Instruction) {
+						if cj, ok := j.(ssa.CallInstruction); ok && calleeName(cj.Common()) == "(*"+pkUtil+".ClientState).Set" {
+							if p, ok := cj.Common().Args[1].(*ssa.Parameter); ok && p.Parent() == g {
+								isSetter = true
+							}
+						}
+					})
+				}
+				if !isSetter {
+					return
+				}
+				k, isC := constInt(ci.Common().Args[len(ci.Common().Args)-1])
+				if !isC || k != stDisconnected {
+					return
+				}
+				nSet++
+				key := fnKey(f) + ":state<-Disconnected"
+				okc := false
+				if f == m.snDisp {
+					for _, gd := range guardsOf(i.Block()) {
+						x, y, op, isCmp := cmpGuard(gd)
+						if isCmp && op == token.EQL {
+							if kk, isK := constInt(y); isK && kk == 0 && c.valueIsField(x, pkPackets1, "Disconnect", "Duration") {
+								okc = true
+							}
+						}
+					}
+				}
+				r.cond(okc, "R4", key, c.instrPos(i), "set only while handling the client's plain DISCONNECT (Duration == 0)", "the session state is set to Disconnected outside the handling of the client's plain DISCONNECT: the shutdown goroutine then takes the client for one that disconnected itself and does not send the DISCONNECT an active or awake client must receive when the session ends")
+			})
+		}
+		if nSet == 0 {
+			r.undecided("R4", "state<-Disconnected", "-", "no place sets the session state to Disconnected")
+		}
 		var shutdown *ssa.Function
 		for _, cl := range closuresIn(run) {
 			getsState := false
